@@ -116,6 +116,23 @@ def contexts(tier):
             out.append((PatCtx("rt:" + c.name, c.prefix, " ".join(c.pattern), c.suffix, c.classes), 0))
         else:
             out.append((Ctx("rt:" + c.name, c.prefix, c.suffix, domain=c.domain), max(1, n - 1) if q else n))
+    # expressions in constant-expression / condition positions, statement expressions, _Atomic(...) in type names
+    cls = {"?V": ["1", "x"], "?W": ["2u", "T"], "?S": [",", "="]}
+    extra = [
+        (c05.FN, "switch ( x ) { case ( ?V ?S x ) : ; default : ; }", ["}"]),
+        (c02.PRE, "struct y { int x : ( ?V , 2u ) ; } ;", []),
+        (c02.PRE, "enum y { x = ( ?V , 2u ) , y } ;", []),
+        (c02.PRE, "_Static_assert ( ( ?V , 2u ) , \"s\" ) ;", []),
+        (c02.PRE, "_Alignas ( ( ?V , 2u ) ) int x ;", []),
+        (c02.PRE, "int x [ 1 ] = { [ ( ?V , 2u ) ] = 1 , . y = ( 1 , x ) } ;", []),
+        (c05.FN, "return ( { ?V ; } ) ; if ( ( { ?V ; } ) ) ; while ( ( { 1 ; } ) ) ; do ; while ( ( { 1 ; } ) ) ; switch ( ( { 1 ; } ) ) ;", ["}"]),
+        (c05.FN, "x = ( { 1 ; } ) ?S ( { x ; } ) ; x ( ( { 1 ; } ) ) ; return x , ?V ;", ["}"]),
+        (c02.PRE, "int x = sizeof ( _Atomic ( ?W ) ) + _Alignof ( _Atomic ( ?W * ) ) ;", []),
+        (c02.PRE, "void y ( _Atomic ( ?W ) , _Atomic ( ?W * ) const , _Atomic ( int ) x ) ;", []),
+        (c05.FN, "x = ( _Atomic ( ?W ) ) ?V ;", ["}"]),
+    ]
+    for i, (pre, pat, suf) in enumerate(extra):
+        out.append((PatCtx(f"rt:extra{i}:{pat}", pre, pat, suf, cls), 0))
     return out
 
 
